@@ -115,4 +115,25 @@ Proof.
   rewrite !andb_true_r. apply known_noloss. unfold clean. rewrite E. reflexivity.
 Qed.
 
+Lemma sched_in_L : Forall (fun t => In t L) sched.
+Proof. apply Forall_forall. intros t Ht. apply nodup_In. exact Ht. Qed.
+
+Theorem known_C04 : check_prop 4 e (c_trace c) (c_labels c) = true.
+Proof.
+  cbn [check_prop]. destruct (has_panic (c_trace c)) eqn:Hnp; [reflexivity|].
+  unfold chk_C04. rewrite known_nodup, known_C04_order. cbn [andb]. rewrite andb_true_r.
+  destruct Hke as (He & Hk & Hown).
+  apply prefix_exec with (L := L); try assumption; try apply NoDup_nodup; try apply sched_in_L.
+Qed.
+
+(** the ledger of the consuming kinds, during the run and after the end of life by the owner [t] *)
+Theorem known_C08_run : chk_C08 e (c_trace c) = true.
+Proof. destruct Hke as (He & Hk & Hown). apply run_C08 with (L := L); try assumption; try apply NoDup_nodup; try apply known_inv. Qed.
+
+Theorem known_C08_final t f : n_pending (c_trace c) = 0%Z -> chk_C08 e (c_trace (final_step e c t f)) = true.
+Proof. intros Hq. destruct Hke as (He & Hk & Hown). apply final_C08 with (L := L); try assumption; try apply NoDup_nodup; try apply known_inv. Qed.
+
+Theorem known_C10_final t k : n_pending (c_trace c) = 0%Z -> chk_C10 e (c_trace (final_step e c t (FIntoSeq k))) = true.
+Proof. intros Hq. destruct Hke as (He & Hk & Hown). apply final_C10 with (L := L); try assumption; try apply NoDup_nodup; try apply known_inv. Qed.
+
 End Known.
